@@ -502,6 +502,9 @@ func (g *Gen) havocAll(st *State, why string) {
 		if strings.HasPrefix(n, "GI.") {
 			continue // package-level variable that is never written outside init
 		}
+		if strings.HasPrefix(n, "iter.") {
+			continue // bookkeeping of a map range (keys visited, entries yielded): no code can write it
+		}
 		if n == "$alloc" {
 			old := g.heapGet(st, n)
 			nw := g.heapHavoc(st, n)
